@@ -351,17 +351,18 @@ func (ssc *StatefulSetController) adoptOrphanRevisions(set *apps.StatefulSet) er
 	if err != nil {
 		return err
 	}
-	hasOrphans := false
+	// only orphans are adopted: a revision that already has a controller (this set after an earlier,
+	// partly successful pass, or anybody else) must not be handed to AdoptOrphanRevisions, which rejects it
+	orphanRevisions := make([]*kubeapps.ControllerRevision, 0)
 	for i := range revisions {
 		if metav1.GetControllerOf(revisions[i]) == nil {
-			hasOrphans = true
-			break
+			orphanRevisions = append(orphanRevisions, revisions[i])
 		}
 	}
-	if hasOrphans {
-		for i := range revisions {
-			if shouldSyncLabels(revisions[i]) {
-				revisions[i], err = syncLabels(ssc.kubeClient, set, revisions[i])
+	if len(orphanRevisions) > 0 {
+		for i := range orphanRevisions {
+			if shouldSyncLabels(orphanRevisions[i]) {
+				orphanRevisions[i], err = syncLabels(ssc.kubeClient, set, orphanRevisions[i])
 				if err != nil {
 					return err
 				}
@@ -374,7 +375,7 @@ func (ssc *StatefulSetController) adoptOrphanRevisions(set *apps.StatefulSet) er
 		if fresh.UID != set.UID {
 			return fmt.Errorf("original StatefulSet %v/%v is gone: got uid %v, wanted %v", set.Namespace, set.Name, fresh.UID, set.UID)
 		}
-		return ssc.control.AdoptOrphanRevisions(set, revisions)
+		return ssc.control.AdoptOrphanRevisions(set, orphanRevisions)
 	}
 	return nil
 }
